@@ -473,6 +473,7 @@ package consensus
 //@ spec ephSC(ms MidState, sci types.V2SiacoinInput) bool = has(ms.elements, sci.Parent.ID) && ms.elements[sci.Parent.ID] < len(ms.sces) && ms.sces[ms.elements[sci.Parent.ID]].Created && (cheight(ms.base) >= ms.base.Network.HardforkV2.EphemeralOutputHeight ==> sci.Parent.ID == ms.sces[ms.elements[sci.Parent.ID]].SiacoinElement.ID && sci.Parent.SiacoinOutput == ms.sces[ms.elements[sci.Parent.ID]].SiacoinElement.SiacoinOutput && sci.Parent.MaturityHeight == ms.sces[ms.elements[sci.Parent.ID]].SiacoinElement.MaturityHeight)
 
 //@ func validateV2Siacoins
+//@   requires @decoded-txn-has-resolutions forall j in 0..len(txn.FileContractResolutions) :: !isnil(txn.FileContractResolutions[j].Resolution)
 //@   prop C08 C02 C03 C01 C04 C10
 //@   requires ms.base.Network != nil && msWF(*ms) && len(txn.SiacoinInputs) < NB
 //@   requires forall j in 0..len(ms.sces) :: types.u128(ms.sces[j].SiacoinElement.SiacoinOutput.Value) < EB
@@ -514,6 +515,7 @@ package consensus
 //@ spec ephSF(ms MidState, sfi types.V2SiafundInput) bool = has(ms.elements, sfi.Parent.ID) && ms.elements[sfi.Parent.ID] < len(ms.sfes) && ms.sfes[ms.elements[sfi.Parent.ID]].Created && cheight(ms.base) < ms.base.Network.HardforkV2.EphemeralOutputHeight
 
 //@ func validateV2Siafunds
+//@   requires @decoded-txn-has-resolutions forall j in 0..len(txn.FileContractResolutions) :: !isnil(txn.FileContractResolutions[j].Resolution)
 //@   prop C08 C02 C03 C01 C04 C10
 //@   requires ms.base.Network != nil && msWF(*ms) && len(txn.SiafundInputs) < NB && len(txn.SiafundOutputs) < NB
 //@   requires cheight(ms.base) >= ms.base.Network.HardforkV2.EphemeralOutputHeight
